@@ -549,7 +549,7 @@ impl Prop for C12 {
         "C12"
     }
     fn cases(&self) -> (u64, u64) {
-        (60_000, 1_000_000)
+        (200_000, 1_000_000)
     }
     fn rule(&self) -> &'static str {
         "choice bytes -> broad definition with every decoration (hide, hide_usage, custom_usage, \
